@@ -315,7 +315,7 @@ func (fr *Frame) initObject(st *State, r *Term, t types.Type) {
 	case *types.Array:
 		c, cs := ex.elemsComp(u.Elem())
 		es := ex.ctx.SortOf(u.Elem())
-		z := App("(as const "+ArraySort(SInt, es)+")", ArraySort(SInt, es), ex.ctx.Zero(u.Elem()))
+		z := ex.ctx.ConstArray(SInt, es, ex.ctx.Zero(u.Elem()))
 		ex.set(st, c, Store(ex.get(st, c, cs), r, z))
 	default:
 		c, cs := ex.cellComp(t)
